@@ -218,7 +218,8 @@ def model_selftest_jobs(chk, ex):
     of the invariants), and every probe state must be reachable."""
     futs = {}
     for dev, start in (("ChildReturnsErr", True), ("ExecveNegErrno", True), ("EnvTestInverted", False), ("WaitHoldsPipes", True),
-                       ("TryWaitNoCache", True), ("EintrNotRetried", True)):
+                       ("TryWaitNoCache", True), ("EintrNotRetried", True),
+                       ("EintrReturnsAtOnce", True)):
         futs[dev] = ex.submit(_selftest_dev, chk, dev, start)
     for dev in ("ParentKeepsOutWrite", "ChildKeepsInWrite"):
         futs["flow:" + dev] = ex.submit(_selftest_flow, chk, dev)
@@ -760,9 +761,6 @@ def signature(plan, variant, clause, verdict):
     """identity of a violation: the clause, the steps that failed in that run (side/step), the build"""
     steps = sorted({"%s/%s" % ("caller" if f["proc"] == "P" else "child", f["step"]) for f in verdict.get("failed", [])})
     sig = {"clause": clause, "failed": "+".join(steps) if steps else "none", "start": VARIANTS[variant][1]}
-    if clause == "ErrMeansNoExec":
-        # which failure of the sync-pipe read (0 = short read) - a different errno is a different finding
-        sig["errno"] = "+".join(sorted({str(f["errno"]) for f in verdict.get("failed", []) if f["step"] == "read"})) or "none"
     if plan.get("round", 1) == 2:
         sig["respawn"] = plan["cfg"].get("respawn")
     if plan.get("flow"):
@@ -782,6 +780,7 @@ def run(tier):
     drift = []
     per_action = {}
     clause_runs = {}
+    leads = {}
     tools = build_tools()
     with concurrent.futures.ThreadPoolExecutor(max_workers=6) as ex:
         futs = {v: ex.submit(tlc_plans, chk, tier, VARIANTS[v][1]) for v in set(MODEL_OF.values())}
@@ -810,7 +809,7 @@ def run(tier):
         plans = [plans[k] for k in sorted(plans)]
         if not plans:
             raise core.ToolError("Spawn_MC generated no plan")
-        if any(set(p["viol"]) - ({"ErrMeansNoExec"} if (p["fault"]["sys"] == "read" and p["fault"]["err"] != 4) else set()) for p in plans):
+        if any(p["viol"] for p in plans):
             raise core.ToolError("model inconsistent: plan with violated clauses although AbsHolds passed")
         round2 = {json.dumps([p["cfg"], p["fault"]], sort_keys=True): p for p in plans if p.get("round", 1) == 2}
         plans = [p for p in plans if p.get("round", 1) == 1]
@@ -886,6 +885,8 @@ def run(tier):
                 key = e["ev"] + (":" + e["nr"] if e["ev"] == "sys" else "") + (":" + e["kind"] if e["ev"] == "mark" else "")
                 per_action[key] = per_action.get(key, 0) + 1
             clauses = list(v["viol"]) + ["Anomaly:" + a for a in v["anomalies"]]
+            for ld in v.get("leads", []):
+                leads[ld] = leads.get(ld, 0) + 1
             d = conformance(r, plan, v)
             if d:
                 drift.append({"variant": variant, "cfg": plan["cfg"], "fault": plan["fault"], "first": d[0]})
@@ -922,6 +923,7 @@ def run(tier):
     chk.extra["model_drift_runs"] = len(drift)
     chk.extra["events_validated_per_kind"] = per_action
     chk.extra["clauses_violated_runs"] = clause_runs
+    chk.extra["leads_not_verdicts_runs"] = leads
     chk.assumptions = [
         "model checking is exhaustive over the configuration x single-fault space of Spawn_MC.tla (every stdio "
         "combination on a base command and on a command using every other setting; the other dimensions with one (quick) / two (thorough) stdio tables); real executions cover every "
@@ -1038,6 +1040,7 @@ def judge_selftest(chk):
         ("cwd-changed", ok, setf("dump", lambda e: True, cwd="/"), "OkMeansConfigured"),
         ("stdout-not-the-pipe", ok, lambda evs: [dict(e, io=[e["io"][0], e["io"][2], e["io"][2]]) if e["ev"] == "dump" else e for e in evs], "OkMeansConfigured"),
         ("wait-status-changed", ok, setf("waited", lambda e: True, status=3584), "WaitStatus"),
+        ("err-while-the-child-runs-the-program", ok, setf("mark", lambda e: e["kind"] == "returned", res="err", code=4), "ErrLeavesNoRunningChild"),
         ("later-wait-says-echild", ok, lambda evs: evs[:-1] + [{"ev": "waited", "res": "err", "status": 10}, evs[-1]], "WaitStatusStable"),
         ("later-wait-other-status", ok, lambda evs: evs[:-1] + [{"ev": "waited", "res": "ok", "status": 0}, evs[-1]], "WaitStatusStable"),
         ("later-try-wait-says-running", ok, lambda evs: evs[:-1] + [{"ev": "waited", "res": "none", "status": 0}, evs[-1]], "WaitStatusStable"),
